@@ -1028,6 +1028,21 @@ def copies_into(fn, field):
     return out
 
 
+def prov_offset(f, src):
+    """constant byte offset of a copy source from the function's first pointer parameter (None when it is not such a sum)"""
+    pd = [p["decl"] for p in f.params if p["t"].get("k") == "ptr"]
+    if not pd:
+        return None
+
+    def sy(z):
+        return "P" if z.get("k") == "ref" and z.get("decl") == pd[0] else None
+    x = strip_all_casts(facts.expand(f, src))
+    q = _linear(f, x, sy)
+    if q is not None and q.get("P") == 1 and set(k for k, v in q.items() if v) <= {"P", 1}:
+        return q.get(1, 0)
+    return None
+
+
 def rule_declared_length(res, rid, m):
     """C05-R4: every copy into the reassembly buffer has a length that depends on
     MessageHeader::getPayloadLength() of the segment being added."""
@@ -1064,6 +1079,36 @@ def rule_declared_length(res, rid, m):
                 why = "copy length %s is a parameter that is the remaining frame size at the call site (%s): bytes that follow " \
                       "the segment's declared length in its frame enter the message" % (canon(ln), "; ".join(detail))
             res.check(ok, rid, "%s:copy-length" % f.name.split("::")[-1], c.get("loc"), why, why)
+            # ... and is exactly that: as a linear form (min() with the frame size looked through) the declared length L, plus the 16 header
+            # bytes when the copy starts at the message header — one byte more lets a byte that follows the segment into the message
+            if ok and GPL in calls:
+                hdr16 = m.fb.record(MH)["size"]
+
+                def syl(z):
+                    if z.get("k") == "call" and callee_name(z) == GPL:
+                        return "L"
+                    if z.get("k") == "ref" and z.get("dk") == "param":
+                        return "p:" + z["decl"]
+                    return None
+
+                def forms(x, depth=0):
+                    xs = strip_all_casts(facts.expand(f, x))
+                    if xs.get("k") == "call" and callee_name(xs) == "std::min" and depth < 3:
+                        out = []
+                        for y in xs.get("args", []):
+                            out.extend(forms(y, depth + 1))
+                        return out
+                    return [_linear(f, xs, syl)]
+                fl = [q for q in forms(ln) if q is not None]
+                withL = [q for q in fl if q.get("L")]
+                src_off = prov_offset(f, src)
+                want_c = hdr16 if src_off == 0 else 0
+                exact = bool(withL) and all(q.get("L") == 1 and q.get(1, 0) == want_c and set(k9 for k9, v9 in q.items() if v9) <= {"L", 1} for q in withL)
+                if src_off in (0, hdr16):
+                    res.check(exact, rid, "%s:copy-length-exact" % f.name.split("::")[-1], c.get("loc"),
+                              "copy length = declared length%s" % (" + %d (header included)" % hdr16 if want_c else ""),
+                              "the copy into the reassembly buffer takes `%s` bytes where the segment has %s: bytes that are not part of the segment enter "
+                              "(or bytes of it are left out of) the message" % (canon(ln)[:70], "its %d header bytes + the declared length" % hdr16 if want_c else "the declared length"))
             # ... computed at full width: the frame may hold 64 KiB or more behind the message (trailing bytes count), so a frame size
             # converted to 16 bits on the way into min()/the comparison cuts the segment short
             from rules.encoder_rules import narrowings
